@@ -59,6 +59,25 @@ theorem default_dtype_fits (st : Stored) (rq : Req) (hd : rq.dtype = none) (h0 :
       · simp only [h1, h2, ↓reduceIte, DType.maxVal]; omega
       · simp only [h1, h2, ↓reduceIte, DType.maxVal]; omega
 
+/-- … and is the *smallest* unsigned type that does (float32 for a rescaled FRACTIONAL read). -/
+theorem default_dtype_smallest (st : Stored) (rq : Req) (hd : rq.dtype = none) :
+    (willRescale st rq = true → chosenDtype st rq = .f32) ∧
+    (willRescale st rq = false →
+      (chosenDtype st rq = .u8 ∧ ceiling st rq < 256) ∨
+      (chosenDtype st rq = .u16 ∧ 256 ≤ ceiling st rq ∧ ceiling st rq < 65536) ∨
+      (chosenDtype st rq = .u32 ∧ 65536 ≤ ceiling st rq)) := by
+  unfold chosenDtype
+  rw [hd]
+  constructor
+  · intro hw; simp [hw]
+  · intro hw
+    simp only [hw, Bool.false_eq_true, ↓reduceIte]
+    by_cases h1 : ceiling st rq < 256
+    · left; simp [h1]
+    · by_cases h2 : ceiling st rq < 65536
+      · right; left; simp [h1, h2]; omega
+      · right; right; simp [h1, h2]; omega
+
 /-- A request naming a segment number the object does not have is refused. -/
 theorem unknown_segment_refused (st : Stored) (rq : Req) (s : Nat) (hs : s ∈ rq.segs) (hn : s ∉ st.segNums) :
     readCore st rq = .error .value := by
